@@ -28,12 +28,17 @@ Fixpoint resolve_steps (cur : list N) (steps : list jstep) : res (list N) :=
   | JParent :: rest => resolve_steps (parent_internal N.eqb slashN cur) rest
   end.
 
+(** [VfsPath == VfsPath] (path.rs, PartialEq): the same filesystem instance (Arc::ptr_eq) and the same string *)
+Definition path_eq (i : nat) (p : path) (i' : nat) (p' : path) : bool :=
+  Nat.eqb i i' && bool_decide (p = p').
+
 Inductive op :=
 (* string-level *)
 | OAsStr (p : pathspec)
 | OFilename (p : pathspec)
 | OExtension (p : pathspec)
 | OIsRoot (p : pathspec)
+| OPathEq (p q : pathspec)           (* VfsPath == VfsPath: same filesystem instance and same canonical string *)
 (* filesystem *)
 | OExists (p : pathspec)
 | OMetadata (p : pathspec)
@@ -259,6 +264,7 @@ Section Run.
     | OFilename ps => string_op ps (fun s => VStr (filename_internal N.eqb slashN s))
     | OExtension ps => string_op ps (fun s => VOptStr (extension_internal N.eqb slashN dotN s))
     | OIsRoot ps => string_op ps (fun s => VBool (match s with [] => true | _ => false end))
+    | OPathEq ps qs => on_paths ps qs (fun v p v' p' => Ret (Ok (VBool (path_eq (v_id v) p (v_id v') p'))))
     | OExists ps => on_path ps (fun v p => lift VBool (vp_exists v p))
     | OMetadata ps => on_path ps (fun v p => lift VMeta (vp_metadata v p))
     | OIsFile ps => on_path ps (fun v p => lift VBool (vp_is_file v p))
